@@ -64,7 +64,7 @@ func loadBaseline() Baseline {
 // includes: obligations of the listed properties are necessary conditions of the key property and
 // are therefore also discharged (and reported) by its check.
 var includes = map[string][]string{
-	"C01": {"C10", "C11", "C12"}, // the output compiles only if imports, qualifiers and identifiers are right
+	"C01": {"C02", "C09", "C10", "C11", "C12"}, // the output compiles only if imports, qualifiers and identifiers are right
 }
 
 func hasProp(props []string, p string) bool {
